@@ -13,6 +13,7 @@
 (*   fmt   : {ok, msg}      did `ego fmt` produce a result                    *)
 (*   fmtd  : {out, status}  what the FORMATTED text did                       *)
 (*   idem  : formatting the formatted text changed nothing                    *)
+(*   lines : the program reads its own source line numbers (runtime.Frames)     *)
 (*   cin, cout : the comments of the original / formatted text (white space   *)
 (*           at line ends and starts removed)                                 *)
 (* Statement, clause by clause:                                               *)
@@ -34,7 +35,11 @@ Count(s, e) == Cardinality({n \in DOMAIN s : s[n] = e})
 SubBag(s, t) == \A e \in Range(s) : Count(s, e) <= Count(t, e)
 
 Accepted(r) == r.orig.status # "compile-error"
+\* "ignoring source line numbers": a program that reads its own source positions (runtime.Frames) and compares them with
+\* constants observes the layout itself; it is not in the domain (r.lines, set by the harness from the source text)
+ReadsLines(r) == "lines" \in DOMAIN r /\ r.lines
 WF(r) == /\ Accepted(r)
+         /\ ~ReadsLines(r)
          /\ r.kind = "gen" => r.orig.out = r.exp.out /\ r.orig.status = r.exp.status
 
 FmtOk(r)    == r.fmt.ok
